@@ -1,8 +1,13 @@
-#!/bin/sh
-# usage: tools-mutant.sh <patch.diff> <PROP> [more props]  -- applies a seeded patch to /repo, runs quick checks, reverts
+#!/bin/bash
+# usage: tools-mutant.sh <patch.diff> <PROP> [more props]
+# Applies a seeded patch to a scratch worktree of /repo HEAD and runs the quick checks against it
+# (VERIF_REPO / VERIF_OUT), so /repo itself and /verif/evidence are not touched.
 patch="$1"; shift
-cd /repo && git apply "$patch" || { echo "patch does not apply"; exit 3; }
+wt=/tmp/wt-mut-$$; out=/tmp/out-mut-$$
+git -C /repo worktree add -q --detach $wt HEAD || exit 3
+trap "git -C /repo worktree remove --force $wt; git -C /repo worktree prune; rm -rf $out" EXIT
+( cd $wt && git apply "$patch" ) || { echo "patch does not apply"; exit 3; }
+mkdir -p $out
 for p in "$@"; do
-  ( cd /verif && timeout 1500 ./bin/gosym check "$p" 2>&1 | egrep "^VIOLATION|^PASS|^INCONCLUSIVE|^KNOWN|harness=" | cut -c1-260 | head -8 )
+  ( cd /verif && VERIF_REPO=$wt VERIF_OUT=$out timeout 1500 ./bin/gosym check "$p" ${TIER:+-tier $TIER} 2>&1 | egrep "^VIOLATION|^PASS|^INCONCLUSIVE|^KNOWN|harness=" | cut -c1-260 | head -${LINES_MAX:-6} )
 done
-cd /repo && git checkout -- . && git status --short | head -3
